@@ -29,6 +29,16 @@ def case(item):
             out["viol"].append(("C02:stream-header-api-error", "svt_av1_enc_stream_header returned %s / %d bytes" % (r.get("hdr"), len(hdr))))
         info = {}
         errs = enc.check_tu_structure(pk, hdr, r["pk"], info)
+        # OBU payload sizes seen (size-field width boundaries 127/128 and 16383/16384 are reported in the evidence)
+        try:
+            import obu as _obu
+            for p_ in pk:
+                for o_ in _obu.split_obus(p_):
+                    n_ = len(o_["payload"])
+                    if 120 <= n_ <= 135 or 16376 <= n_ <= 16391:
+                        info["obu_payload_size_%d" % n_] = info.get("obu_payload_size_%d" % n_, 0) + 1
+        except Exception:
+            pass
         out["info"] = info
         out["info"]["packets"] = len(pk)
         seen = set()
@@ -52,8 +62,18 @@ def case(item):
         enc.cleanup(pre)
 
 
+def size_sweep(tier):
+    """sessions whose frame payloads sweep through the leb128 width boundary (127/128 bytes): qp x content x seed"""
+    cs = []
+    for qp in range(20, 64, 1 if tier == "thorough" else 2):
+        for c in ("noise", "box", "grad"):
+            for seed in ((1, 2, 3) if tier == "thorough" else (1, 2)):
+                cs.append(streams.mk("sweep:qp=%d,seed=%d/%s" % (qp, seed, c), 64, 64, 9, c, qp=qp, cseed=seed))
+    return cs
+
+
 def cases_for(tier):
-    cs = streams.bound01(sizes=((64, 64),), contents=("grad", "screen")) + streams.sizes_lengths()
+    cs = streams.bound01(sizes=((64, 64),), contents=("grad", "screen")) + streams.sizes_lengths() + size_sweep(tier)
     if tier == "quick":
         cs += streams.gop_shapes(ns=(1, 2, 9, 18), ips=(-1, 0, 1, 3, 8))
     else:
